@@ -31,7 +31,7 @@ CLAIMED = {
     "C04": ("MIR interprocedural success-dominance by public error variant (AuthorMismatch) and by guaranteed callee (verify_id)",
             "A checked author-binding guard and a checked id verification success-dominate the construction of every stored Message "
             "(receive and send path). OpenMLS replay protection is not decided.", "DESIGN.md §4 C04"),
-    "C05": ("MIR success-dominance by error variant, decision-table enumeration (authorisation function, whitelist predicate, closures), "
+    "C05": ("MIR success-dominance by error variant, decision-table enumeration (authorisation function; the whitelist predicate evaluated on 366 symbolic commits, 4760 in the thorough tier, independent of closure / loop form), "
             "arm-restricted who-may-call (proposal triage), boolean-guard dominance (sender side), store-consumption rule",
             "Both commit guards dominate every merge of a received commit and precede any state change; the authorisation and whitelist "
             "decision tables equal the spec; proposals are queued / auto-committed only on the named arms; sender-side admin test "
@@ -46,7 +46,7 @@ CLAIMED = {
             "The two backends agree structurally on selection predicates, state constants, data-type filing, sort orders, limits and upsert "
             "semantics for every trait method. Observable equality on arbitrary sequences and LRU eviction are not decided.", "DESIGN.md §4 C10"),
     "C12": ("SQL bracket analysis on MIR: success-dominance of every write by the opening statement, COMMIT/RELEASE on Ok returns, "
-            "ROLLBACK on error exits, single connection guard",
+            "ROLLBACK on error exits (or the RAII form: rusqlite Transaction/Savepoint guard, commit on Ok, rollback on drop), single connection guard",
             "Decides the 'in particular' clause only: snapshot creation, restore and relay replacement are each one transaction/savepoint "
             "bracket on every path. Crash-recoverability of multi-statement API calls is not decided (stated in DESIGN).", "DESIGN.md §4 C12"),
     "C18": ("decision-table enumeration of comparators / sort closures / pointer update with callee+closure inlining, ORDER BY extraction, "
@@ -54,7 +54,7 @@ CLAIMED = {
             "Both comparators are lexicographic total orders equal to the SQL ORDER BY lists and to the memory sort closures; limit "
             "validation dominates data access with equal bounds; pagination arithmetic cannot panic or wrap; pointer update decision "
             "table. Pointer correctness after invalidation is not decided.", "DESIGN.md §4 C18"),
-    "C07": ("symbolic exploration of process_message's dedup step per stored record state (decision table with forking), success-dominance, "
+    "C07": ("symbolic exploration of process_message's dedup step per stored record state (symbolic record, forking, helper inlining), success-dominance, "
             "copy-provenance of the failure record and of the snapshot's incumbent, control-dependence of the own-commit shortcut",
             "Failed / EpochInvalidated records end the call early with no write on every explored path; the dedup lookup dominates all state-"
             "touching calls; the comparator is irreflexive and compares against the applied commit's own id/timestamp; the pending-commit "
@@ -64,14 +64,15 @@ CLAIMED = {
             "Every merge is followed on every Ok path by the metadata sync; the sync copies each named field from the current MLS state; "
             "wrappers are tagged with the stored routing id and looked up by it; stale index entries are removed. Equality after every step "
             "of real histories is not decided.", "DESIGN.md §4 C08"),
-    "C11": ("type-level inventory of interior-mutable state reachable from MDK, hydration-coverage provenance, persisted-mapping tables",
+    "C11": ("type-level inventory of interior-mutable state reachable from MDK, hydration-coverage provenance (per field: placeholder / parsed from the persisted name / other), "
+            "queue-storage agreement (every removal from the in-memory queue is released or consumed in storage), persisted-mapping tables",
             "The only volatile state is the snapshot manager's queue; every field the race decision reads is rebuilt from persisted data "
             "(known finding: the commit timestamp is not). Equivalence of runs with and without restarts is not decided.", "DESIGN.md §4 C11"),
     "C15": ("who-may-call on TLS decoders (exact / remainder-checked), must-pass-through and error-exit control dependence for the key-package "
             "and welcome parsers, field wiring of as_raw/from_raw, writer/reader key tables from format templates",
             "Every external TLS decode is exact; every listed binding check is on all Ok paths / controls an error exit; the extension "
             "wire mapping is the identity; imeta keys written are parsed. Value round-trip for arbitrary values is not decided.", "DESIGN.md §4 C15"),
-    "C16": ("success-dominance (dedup, preview), decision-table evaluation of the existing-group guard (exactly `state == Active`), "
+    "C16": ("success-dominance (dedup, preview), symbolic evaluation of process_welcome / accept_welcome / decline_welcome once per state of the stored record (absent / Active / Pending / Inactive), "
             "constant-write tables for accept/decline",
             "A recorded wrapper id never writes again; records are written only after a successful preview; writes / disabling under the "
             "sender-chosen group id happen only when the existing record is not Active (known finding: accept_welcome). Joiner/inviter state "
@@ -94,7 +95,7 @@ CLAIMED = {
             "arguments and error payloads; redaction rule on manual Debug impls; compile-fail witnesses; positive controls compiled by the driver",
             "No tracing event formats a type or value carrying a group id / Nostr group id / secret / snapshot name and no library error "
             "payload is derived from one, on every call site. Strings produced by dependencies' errors are assumed clean.", "DESIGN.md §4 C14"),
-    "C17": ("parameter-coverage of the AAD / HKDF-context builders, enc/dec sibling argument wiring, decision table of the post-decryption "
+    "C17": ("parameter-coverage of the AAD / HKDF-context builders, enc/dec sibling argument wiring, binding agreement (key, AAD and published record bind the same values; decrypt side takes the reference's same-named fields), decision table of the post-decryption "
             "hash check, route restriction to the checking function, group-image hash-before-decrypt dominance",
             "Every metadata parameter is bound into AAD and key derivation identically on both sides; decrypted bytes are only returned "
             "after the hash comparison; label domain separation. AEAD/HKDF correctness and byte round-trips are not decided.", "DESIGN.md §4 C17"),
